@@ -358,7 +358,7 @@ def _fresh_marker(tag):
     return m, j
 
 
-@rule('R05.f', ('C05', 'C01', 'C04'), 'offset arithmetic of if/else/end, back '
+@rule('R05.f', ('C05', 'C01', 'C04', 'C02'), 'offset arithmetic of if/else/end, back '
       'jump and break patch lands on the intended instruction (affine '
       'evaluation)', floor=10,
       decides='every branch, loop exit and break leads to the statement the '
